@@ -1,10 +1,144 @@
-(* C01 — property theorems.  Only statements, [exact lemma] and Print Assumptions. *)
+(* C01 — property theorems.  Only statements, [exact lemma] and Print Assumptions.
+   [valid d] = every element is a byte and length d <= isize::MAX (what a Rust slice can be);
+   [usize z] = 0 <= z <= 2^64-1.  [Panic] is the model's explicit outcome for every Rust panic site
+   (unwrap of Err/None, unchecked + / * under overflow-checks, bytemuck::cast_slice). *)
 From Coq Require Import ZArith List.
 From FV Require Import Lib.RustInt C01.Model C01.Proofs.
 Import ListNotations.
 Open Scope Z_scope.
 
-Theorem c01_read_at_total : forall w d off, read_at w d off <> Panic.
-Proof. exact read_at_total. Qed.
+(* fontdata_total: every FontData / offset operation returns Ok / Err / None, never Panic, for EVERY
+   list and EVERY argument (no hypothesis at all) *)
+Theorem c01_fontdata_total : forall d w esz a b off sk s ek e o,
+  read_at w d off <> Panic /\ read_ref_at w d off <> Panic /\ read_array esz d a b <> Panic /\
+  (exists r, fd_slice d sk s ek e = r) /\ (exists r, fd_split_off d off = r) /\ (exists r, fd_take_up_to d off = r) /\
+  resolve_offset o d <> Panic /\ resolve_nullable o d <> Some Panic /\ check_in_bounds d off <> Panic.
+Proof. exact fontdata_total_lemma. Qed.
 
-Print Assumptions c01_read_at_total.
+(* ... and every Cursor program: any sequence of advance / advance_by / read / read_array / read_with_args /
+   read_computed_array / read_u32_var / position / remaining_bytes / remaining / is_empty with usize
+   arguments, from any usize position, followed by finish *)
+Theorem c01_cursor_total : forall ops c, Forall cop_wf ops -> 0 <= cpos c <= USIZE_MAX ->
+  Forall (fun o => o <> Panic) (snd (crun ops c)) /\ c_finish (fst (crun ops c)) <> Panic.
+Proof. exact cursor_total_lemma. Qed.
+
+(* read_at_spec: Ok iff offset + width <= len, and then the value is the big-endian integer of those bytes *)
+Theorem c01_read_at_spec : forall w d off, 0 <= off -> 0 <= w -> blen d <= USIZE_MAX ->
+  (off + w <= blen d -> read_at w d off = Ok (from_be (sub d off (off + w)))) /\
+  (blen d < off + w -> read_at w d off = Err OutOfBounds).
+Proof. exact read_at_spec. Qed.
+
+(* read_array_spec: Ok (exactly the bytes of the range) iff the range is in bounds and its length is a
+   multiple of the non-zero element size; otherwise the stated error *)
+Theorem c01_read_array_spec : forall esz d a b, 0 <= a ->
+  (a <= b /\ b <= blen d /\ esz <> 0 /\ (b - a) mod esz = 0 -> read_array esz d a b = Ok (sub d a b)) /\
+  (b < a \/ blen d < b -> read_array esz d a b = Err OutOfBounds) /\
+  (a <= b /\ b <= blen d /\ (esz = 0 \/ (b - a) mod esz <> 0) -> read_array esz d a b = Err InvalidArrayLen).
+Proof. exact read_array_spec. Qed.
+
+(* cursor_monotone: the position never decreases (and stays a usize, over the same data) ... *)
+Theorem c01_cursor_monotone : forall ops c, Forall cop_wf ops -> 0 <= cpos c <= USIZE_MAX ->
+  cpos c <= cpos (fst (crun ops c)) <= USIZE_MAX /\ cdata (fst (crun ops c)) = cdata c.
+Proof. exact cursor_monotone_lemma. Qed.
+(* ... finish succeeds iff position <= len ... *)
+Theorem c01_finish_iff : forall c, 0 <= cpos c -> (c_finish c = Ok tt <-> cpos c <= blen (cdata c)).
+Proof. exact finish_iff_lemma. Qed.
+(* ... so a position saturated at usize::MAX can never be accepted: len <= isize::MAX *)
+Theorem c01_saturation_cannot_fake_success : forall c,
+  blen (cdata c) <= ISIZE_MAX -> cpos c = USIZE_MAX -> c_finish c = Err OutOfBounds.
+Proof. exact saturated_finish_fails. Qed.
+
+(* resolve_offset_total / spec: offset 0 = null, offset <= len = the tail from that offset, else OutOfBounds *)
+Theorem c01_resolve_offset_spec : forall o d, 0 <= o ->
+  (o = 0 -> resolve_offset o d = Err NullOffset) /\
+  (0 < o <= blen d -> resolve_offset o d = Ok (skipn (Z.to_nat o) d)) /\
+  (blen d < o -> resolve_offset o d = Err OutOfBounds).
+Proof. exact resolve_offset_spec. Qed.
+
+(* FontRef::new and table_data(tag) never panic, for every valid byte string and every tag;
+   the generated getters' `unwrap`s are unreachable on a directory that `read` accepted *)
+Theorem c01_table_data_total : forall d, valid d ->
+  fontref_new d <> Panic /\ forall f tag, fontref_new d = Ok f -> table_data f tag <> Panic /\ table_range f tag <> Panic.
+Proof. exact font_total_lemma. Qed.
+Theorem c01_fontref_new_spec : forall d f, valid d -> fontref_new d = Ok f ->
+  fr_data f = d /\ table_directory_read d = Ok (fr_dir f) /\
+  (from_be (sub d 0 4) = TT_SFNT_VERSION \/ from_be (sub d 0 4) = CFF_SFNT_VERSION \/ from_be (sub d 0 4) = TRUE_SFNT_VERSION).
+Proof. exact fontref_new_spec. Qed.
+
+(* table_data_spec, for EVERY directory (sorted or not): a returned slice is exactly
+   file[offset, offset+length) of some record carrying the requested tag, with offset <> 0 and in bounds *)
+Theorem c01_table_data_sound : forall d f tag s, valid d -> fontref_new d = Ok f -> table_data f tag = Ok (Some s) ->
+  exists recs r i, td_table_records (fr_dir f) = Ok recs /\ nthz recs i = Some r /\ rec_tag r = tag /\
+    rec_offset r <> 0 /\ rec_offset r + rec_length r <= blen d /\
+    s = sub d (rec_offset r) (rec_offset r + rec_length r).
+Proof. exact table_data_sound. Qed.
+(* what the binary search guarantees: on ANY slice a hit is an in-range index comparing Equal ... *)
+Theorem c01_binary_search_sound : forall n cmpf i, 0 <= n -> binary_search n cmpf = Some i -> 0 <= i < n /\ cmpf i = Eq.
+Proof. exact binary_search_sound. Qed.
+(* ... and on a directory sorted by tag the lookup finds a record with the tag whenever one exists
+   (None then only for offset 0 / offset+length overflow / out of bounds); unsorted directories may miss:
+   see Examples.v [unsorted_directory_misses] *)
+Theorem c01_table_data_complete_sorted : forall d f tag, valid d -> fontref_new d = Ok f ->
+  forall recs, td_table_records (fr_dir f) = Ok recs ->
+  (forall i j ri rj, 0 <= i <= j -> nthz recs i = Some ri -> nthz recs j = Some rj -> rec_tag ri <= rec_tag rj) ->
+  (exists k r, nthz recs k = Some r /\ rec_tag r = tag) ->
+  exists i r, nthz recs i = Some r /\ rec_tag r = tag /\
+    table_range f tag = Ok (match non_null (rec_offset r) with
+                            | None => None
+                            | Some st => match checked_add st (rec_length r) with None => None | Some e => Some (st, e) end
+                            end).
+Proof. exact table_data_complete. Qed.
+
+(* hand-written helpers *)
+(* postscript INDEX (Index1: cw = 2, Index2: cw = 4): read, the generated getters, get_offset and get
+   never panic for any valid bytes and any usize index *)
+Theorem c01_index_total : forall cw d, valid d -> (cw = 2 \/ cw = 4) ->
+  index_read cw d <> Panic /\
+  forall x i, index_read cw d = Ok x -> usize i ->
+    ix_count x <> Panic /\ ix_off_size x <> Panic /\ ix_offsets x <> Panic /\ ix_objdata x <> Panic /\
+    index_get_offset x i <> Panic /\ index_get x i <> Panic.
+Proof. exact index_total_lemma. Qed.
+(* Loca::read / get_raw (both formats): total; Some exactly for idx < number of entries *)
+Theorem c01_loca_total : forall d is_long idx, loca_read d is_long <> Panic /\
+  forall l, (exists v, loca_get_raw is_long l idx = Some v) <-> 0 <= idx < Z.of_nat (length l).
+Proof. exact loca_total_lemma. Qed.
+(* VarLenArray::iter over items with a sw-byte length prefix: finished within len+1 `next` calls, <= len items *)
+Theorem c01_varlen_iter_steps : forall sw d, 1 <= sw -> bytes d ->
+  snd (varlen_iter (read_len_at_default sw) (S (length d)) d) = true /\
+  Z.of_nat (length (fst (varlen_iter (read_len_at_default sw) (S (length d)) d))) <= blen d.
+Proof. exact varlen_iter_steps_lemma. Qed.
+(* VarLenArray::get(idx): the loop exits (None) within len+1 length reads whatever idx is *)
+Theorem c01_varlen_get_steps : forall sw d idx, 1 <= sw -> bytes d -> 0 <= idx ->
+  varlen_get_fast (read_len_at_default sw) d idx = varlen_get (read_len_at_default sw) d idx.
+Proof. exact varlen_get_steps_lemma. Qed.
+(* ComputedArray: len * item_len <= data length, no items when item_len = 0, iter ends within len+1 calls
+   yielding <= len items, get never panics *)
+Theorem c01_computed_array_steps : forall item_len d, 0 <= item_len ->
+  let a := computed_new item_len d in
+  snd (computed_iter (S (length d)) a 0) = true /\
+  Z.of_nat (length (fst (computed_iter (S (length d)) a 0))) <= ca_len a /\
+  ca_len a * item_len <= blen d /\ (item_len = 0 -> ca_len a = 0) /\ forall idx, computed_get a idx <> Panic.
+Proof. exact computed_iter_steps_lemma. Qed.
+(* TTC header read never panics *)
+Theorem c01_ttc_header_read_total : forall d, ttc_header_read d <> Panic.
+Proof. exact ttc_header_read_total. Qed.
+
+Print Assumptions c01_fontdata_total.
+Print Assumptions c01_cursor_total.
+Print Assumptions c01_read_at_spec.
+Print Assumptions c01_read_array_spec.
+Print Assumptions c01_cursor_monotone.
+Print Assumptions c01_finish_iff.
+Print Assumptions c01_saturation_cannot_fake_success.
+Print Assumptions c01_resolve_offset_spec.
+Print Assumptions c01_table_data_total.
+Print Assumptions c01_fontref_new_spec.
+Print Assumptions c01_table_data_sound.
+Print Assumptions c01_binary_search_sound.
+Print Assumptions c01_table_data_complete_sorted.
+Print Assumptions c01_index_total.
+Print Assumptions c01_loca_total.
+Print Assumptions c01_varlen_iter_steps.
+Print Assumptions c01_varlen_get_steps.
+Print Assumptions c01_computed_array_steps.
+Print Assumptions c01_ttc_header_read_total.
